@@ -352,21 +352,21 @@ def _opt_unwrap_or_default(m, args, ci):
 @I.add('std::option::Option::unwrap_or_else', 'Option::unwrap_or_else')
 def _opt_unwrap_or_else(m, args, ci):
     o = _opt(args[0])
-    return o.fields[0] if o.variant == 'Some' else m.call_closure(args[1], [unit()] if False else [tuple_()][:0])
+    return o.fields[0] if o.variant == 'Some' else m.call_closure(args[1], [])
 
 @I.add('std::option::Option::map', 'Option::map')
 def _opt_map(m, args, ci):
     o = _opt(args[0])
     if o.variant == 'None':
         return none()
-    return some(m.call_closure(args[1], [tuple_(o.fields[0])]))
+    return some(m.call_closure(args[1], [o.fields[0]]))
 
 @I.add('std::option::Option::and_then', 'Option::and_then')
 def _opt_and_then(m, args, ci):
     o = _opt(args[0])
     if o.variant == 'None':
         return none()
-    return m.call_closure(args[1], [tuple_(o.fields[0])])
+    return m.call_closure(args[1], [o.fields[0]])
 
 @I.add('std::option::Option::ok_or', 'Option::ok_or')
 def _opt_ok_or(m, args, ci):
@@ -410,7 +410,7 @@ def _opt_filter(m, args, ci):
     o = _opt(args[0])
     if o.variant == 'None':
         return none()
-    keep = m.call_closure(args[1], [tuple_(Ref(o, 0))])
+    keep = m.call_closure(args[1], [Ref(o, 0)])
     return o if m.branch(keep, 'Option::filter') else none()
 
 @I.add('std::result::Result::is_ok', 'Result::is_ok')
@@ -463,21 +463,21 @@ def _res_map(m, args, ci):
     r = _res(args[0])
     if r.variant == 'Err':
         return r
-    return ok(m.call_closure(args[1], [tuple_(r.fields[0])]))
+    return ok(m.call_closure(args[1], [r.fields[0]]))
 
 @I.add('std::result::Result::map_err', 'Result::map_err')
 def _res_map_err(m, args, ci):
     r = _res(args[0])
     if r.variant == 'Ok':
         return r
-    return err(m.call_closure(args[1], [tuple_(r.fields[0])]))
+    return err(m.call_closure(args[1], [r.fields[0]]))
 
 @I.add('std::result::Result::and_then', 'Result::and_then')
 def _res_and_then(m, args, ci):
     r = _res(args[0])
     if r.variant == 'Err':
         return r
-    return m.call_closure(args[1], [tuple_(r.fields[0])])
+    return m.call_closure(args[1], [r.fields[0]])
 
 @I.rx(r'^<(std::result::)?Result as (std::ops::)?Try>::branch$')
 def _res_branch(m, args, ci):
@@ -605,7 +605,7 @@ def _pin_as_mut(m, args, ci):
 @I.rx(r'^(std::pin::)?Pin::map_unchecked_mut$')
 def _pin_map_unchecked(m, args, ci):
     p = args[0]
-    r = m.call_closure(args[1], [tuple_(p.fields[0])])
+    r = m.call_closure(args[1], [p.fields[0]])
     return Adt('Pin', None, {0: r})
 
 @I.rx(r'^<(std::pin::)?Pin as Deref(Mut)?>::deref(_mut)?$')
